@@ -323,6 +323,10 @@ class MultiAggregateView(Table):
     
 def itermultiaggregate(source, key, aggregation):
     aggregation = OrderedDict(aggregation.items())  # take a copy
+
+    # special case where length of key is 1
+    if isinstance(key, (list, tuple)) and len(key) == 1:
+        key = key[0]
     it = iter(source)
     hdr = next(it)
     # push back header to ensure we iterate only once
